@@ -568,6 +568,12 @@ def gen_model_facts(rng, sig, th):
         if len(labels[ty]) >= 2:
             a, b = rng.sample(labels[ty], 2)
             facts.append(["eq", ty, a, b])
+    if rng.random() < 0.3 and nobj >= 3 and morph:
+        # a morphism with two codomains (or domains): single-valuedness identifies the two models
+        # without producing any new row of the morphism diagram
+        o = rng.choice([x for x in morph if x[1] in (DOM, COD)])
+        other = rng.choice([l for l in labels[MODEL] if l != o[3]])
+        morph.append(["ins", o[1], o[2], other])
     if rng.random() < 0.3 and nobj >= 3:
         # two models identified by the caller (histories whose merged diagram is cyclic are skipped
         # by the check): rows one of them inherited must count for the other as well
